@@ -355,10 +355,18 @@ class Ctx:
         rec = dict(name=name, status=None, info=info)
         if isinstance(violation, bool):
             if violation:
-                # concretely violated on this path: need a model of the pc
-                self._ensure_model()
-                rec["status"] = "sat"
-                rec["model"] = self.model_values()
+                # concretely violated on this path: it is a violation iff the path is feasible
+                if self.model is not None and self.model_valid:
+                    st, m = "sat", self.model
+                else:
+                    st, m = solve(self.pc, self.stats, timeout_ms or self.timeout_ms)
+                    if st == "unsat":
+                        raise PathAbort("path condition unsat")
+                    if st == "sat":
+                        self.model, self.model_valid = m, True
+                rec["status"] = st
+                if st == "sat":
+                    rec["model"] = self.model_values(m)
             else:
                 rec["status"] = "unsat"
             self.obligations.append(rec)
